@@ -13,7 +13,17 @@ fi
 # 1. compile what extraction needs
 TARGETS=""
 for f in $MODS_V coq/gen/Extracted.v; do TARGETS="$TARGETS ${f#coq/}o"; done
-( cd coq && ../tools/gen_coqproject.sh && timeout 1800 make -j16 $TARGETS >/dev/null ) || { echo "driver: coq build failed"; exit 2; }
+coq_build() { ( cd coq && ../tools/gen_coqproject.sh && timeout 1800 make -j16 $TARGETS >"$CACHE/driver_make.log" 2>&1 ); }
+if ! coq_build; then
+  # a compiled file left truncated or stale by an interrupted run (killed check, timeout) is not a
+  # property of the source: remove the compiled files and rebuild once
+  if grep -qE "bad magic number|truncated|premature end of file|Try to rebuild|inconsistent assumptions|End_of_file|corrupted|Bad version|input_value|not a valid object file" "$CACHE/driver_make.log"; then
+    find coq -name "*.vo" -o -name "*.vos" -o -name "*.vok" -o -name "*.glob" -o -name ".*.aux" | xargs rm -f
+    coq_build || { echo "driver: coq build failed"; tail -5 "$CACHE/driver_make.log"; exit 2; }
+  else
+    echo "driver: coq build failed"; tail -5 "$CACHE/driver_make.log"; exit 2
+  fi
+fi
 # 2. extract
 EX=$CACHE/extract
 rm -rf "$EX"; mkdir -p "$EX"
